@@ -12,7 +12,8 @@ RULE = (
     "value = cash + children, security value = position x price x multiplier, weight = value / parent value, all compared with an independent reference model fed with the "
     "executed quantities; rows of the current and of every past date equal the end-of-date state. non-trivial = at least one trade and one date change after a trade. "
     "backtest: grammar backtests with a probe algo inserted at a random stack position observing the same identities mid-stack and at the end of every date. "
-    "distinct = distinct spec hashes."
+    "dynamic: a sub-strategy created inside a live tree (parent=, setup_from_parent, optionally the repository's update(parent.now) pattern, optionally while a change is pending), then "
+    "allocations / trades / reads: the identities hold at every look, and allocating to the parent pushes nothing into the still empty newcomer. distinct = distinct spec hashes."
 )
 ASSUMPTIONS = [
     "observation = reading public properties after an operation issued with default update flags, or after the root.update that closes an update=False batch",
@@ -223,10 +224,72 @@ def probe_spec(draw):
     return spec
 
 
-SUBS = {"history": case_history, "backtest": case_backtest}
-STRATS = {"history": machine.history_spec, "backtest": probe_spec}
+# ---- sub-strategies created inside a live tree ---------------------------------------------------------
+@st.composite
+def dynamic_spec(draw):
+    return {
+        "prior": {t: draw(st.sampled_from([0.0, 0.1, 0.3, -0.2])) for t in ["a", "b"]},
+        "pending": draw(st.sampled_from([None, "adjust", "allocate"])),
+        "pattern": draw(st.sampled_from(["update_child", "update_child", "none"])),
+        "kids": draw(st.lists(st.sampled_from(["a", "b", "c"]), min_size=1, max_size=3, unique=True)),
+        "then": draw(st.lists(st.sampled_from(["alloc_root", "alloc_new", "trade_new", "next", "read_new"]), min_size=1, max_size=5)),
+        "integer": draw(st.booleans()),
+    }
+
+
+def case_dynamic(ctx, spec):
+    """the repository's dynamic-strategy pattern: Strategy(name, children=[...], parent=live_parent); setup_from_parent(); update(parent.now)
+    - or no update at all - followed by allocations and trades; the balance-sheet identities hold whenever the tree is looked at"""
+    bt = ctx.bt
+    import pandas as pd
+
+    dts = pd.to_datetime(["2021-03-01", "2021-03-02", "2021-03-03", "2021-03-04"])
+    data = pd.DataFrame({"a": [17.25, 17.5, 17.0, 18.0], "b": [101.3, 100.9, 102.2, 99.0], "c": [9.99, 10.01, 10.4, 10.2]}, index=dts)
+    root = bt.core.Strategy("root", [], children=["a", "b"])
+    root.setup(data)
+    root.use_integer_positions(bool(spec["integer"]))
+    root.adjust(1e6)
+    root.update(dts[0])
+    for t, w in spec["prior"].items():
+        if w:
+            root.rebalance(w, t, base=1e6)
+    root.update(dts[0])
+    i = 1
+    root.update(dts[i])
+    if spec["pending"] == "adjust":
+        root.adjust(5e4)
+    elif spec["pending"] == "allocate":
+        root.allocate(2e4, child="a")
+    new = bt.core.Strategy("dyn", [], children=list(spec["kids"]), parent=root)
+    new.setup_from_parent()
+    if spec["pattern"] == "update_child" and spec["pending"] is None:
+        new.update(root.now)
+    check_tree_identities(bt, root, "right after creating the sub-strategy (%s)" % spec["pattern"])
+    for k, what in enumerate(spec["then"]):
+        if what == "alloc_root":
+            root.allocate(1e4)
+        elif what == "alloc_new":
+            root.allocate(5e4, child="dyn")
+        elif what == "trade_new":
+            if new.value > 1000:
+                new.allocate(0.5 * new.value, child=spec["kids"][0])
+        elif what == "next":
+            if i + 1 < len(dts):
+                i += 1
+                root.update(dts[i])
+        else:
+            new.value, new.weight, new.price
+        check_tree_identities(bt, root, "step %d (%s) after creating a sub-strategy" % (k, what))
+        if what == "alloc_root" and abs(new.value) > 1e-9 and "alloc_new" not in spec["then"][:k]:
+            raise Violation("allocating to the parent pushed %r into the just-created, empty sub-strategy (weights are value / parent value)" % new.value, signature="dynamic:alloc-spread")
+    return {"nontrivial": True, "labels": ["pattern=" + spec["pattern"], "pending=%s" % spec["pending"]]}
+
+
+SUBS = {"history": case_history, "backtest": case_backtest, "dynamic": case_dynamic}
+STRATS = {"history": machine.history_spec, "backtest": probe_spec, "dynamic": dynamic_spec}
 
 
 def shard(ctx):
     run_sub(ctx, "history", machine.history_spec(), lambda s: case_history(ctx, s), ctx.n(1600, 30000))
     run_sub(ctx, "backtest", probe_spec(), lambda s: case_backtest(ctx, s), ctx.n(320, 5000))
+    run_sub(ctx, "dynamic", dynamic_spec(), lambda s: case_dynamic(ctx, s), ctx.n(800, 10000))
